@@ -15,6 +15,7 @@ Safety model (bank-grade, fail closed):
 import json
 import logging
 import posixpath
+import re
 import time
 from typing import Dict, Optional, Set
 
@@ -23,6 +24,10 @@ from .metadata_manager import MetadataManager
 from .storage_backend import LocalStorageBackend
 
 logger = logging.getLogger(__name__)
+
+# Markers written by this version: <32 hex digits>.inflight (older versions:
+# <data file basename>.inflight, possibly with an 8-hex suffix, or no payload)
+_NEW_STYLE_MARKER_RE = re.compile(r"^[0-9a-f]{32}\.inflight$")
 
 # Directory (relative to table root) holding in-flight transaction markers
 INFLIGHT_PATH = "metadata/inflight"
@@ -219,10 +224,18 @@ class GarbageCollector:
             if not basename.endswith(".inflight"):
                 continue
             if basename.startswith(".tmp."):
-                # Temp file of a marker being written right now (write_file is
-                # temp + rename): not a marker yet. The file it will protect
-                # is written only after the rename, so it is younger than any
-                # grace period that exceeds this run.
+                # Temp file of a marker write (write_file is temp + rename; real
+                # markers have random hex names and never start with '.tmp.').
+                # Fresh: a marker being written right now - not a marker yet,
+                # and the file it will protect is written only after the
+                # rename, so it is younger than any grace period that exceeds
+                # this run. Stale: left behind by a writer that died inside
+                # write_file - swept like an abandoned marker.
+                if not age_ok:
+                    try:
+                        self.storage.delete_file(norm_marker)
+                    except Exception as e:
+                        logger.warning(f"Failed to delete stale marker temp file {norm_marker}: {e}")
                 continue
             data_rel: Optional[str]
             try:
@@ -277,11 +290,13 @@ class GarbageCollector:
             raise _MarkerUnreadable(str(e)) from e
         if not raw.strip():
             # Legacy marker without payload: "<data file basename>.inflight"
-            # protects data/<basename>. An empty marker that names no existing
-            # file that way is not a legacy marker but a damaged one.
-            if self.storage.exists(fallback):
-                return fallback
-            raise _MarkerUnreadable("empty payload and no data file of the marker's name")
+            # protects data/<basename> (written BEFORE that file, so the file
+            # need not exist yet). Markers written by this version are named
+            # by 32 hex digits and always carry a payload: an empty one is a
+            # damaged marker, not a legacy one.
+            if _NEW_STYLE_MARKER_RE.match(basename):
+                raise _MarkerUnreadable("empty payload")
+            return fallback
         try:
             payload = json.loads(raw.decode("utf-8"))
             target = payload.get("file_path")
